@@ -8,6 +8,7 @@ import (
 	"fmt"
 	"strings"
 
+	"github.com/youchainhq/go-youchain/core/rawdb"
 	"github.com/youchainhq/go-youchain/params"
 	"verifharness/internal/quiet"
 	"verifharness/internal/vh"
@@ -31,6 +32,7 @@ func (f failure) String() string {
 type stats struct {
 	calls, prefixes, reorgs, known, invalidOffered, errs, sideStores, repairs, rejoinExact int
 	traces                                                                                 int
+	refusedNoParentState                                                                   int
 	nontrivial                                                                             bool
 	canon                                                                                  []string
 	writeLists                                                                             [][]string // per call
@@ -146,7 +148,16 @@ func runCase(k *kase, m *modelIO) (fails []failure, st stats) {
 				st.nontrivial = true
 			}
 		}
+		// observation (not a violation of C11): under the ucon path a valid chain whose first block's parent is stored
+		// WITHOUT state (a fork delivered block by block) is refused; counted for the evidence
+		parentNoState := false
+		if pn := k.nodes[k.nodes[ids[0]].parent]; pn != nil && k.chainValid(k.nodes[ids[len(ids)-1]]) {
+			parentNoState = rawdb.HasBody(c.under, pn.blk.Hash(), pn.num) && !c.bc.HasState(pn.blk.Root())
+		}
 		res, prims := c.insert(ids)
+		if parentNoState && res == "err" {
+			st.refusedNoParentState++
+		}
 		toks, done := k.canonWrites(prims)
 		st.writeLists = append(st.writeLists, toks)
 		if strings.HasPrefix(res, "panic") {
@@ -269,6 +280,15 @@ func runCase(k *kase, m *modelIO) (fails []failure, st stats) {
 			}
 		}
 	}
+	// adoption: an honest, longer fork offered from the fork point in one call must be the head now (as on a node that
+	// saw that fork first)
+	if k.expectHead != 0 {
+		if got := c.idOf(c.bc.CurrentBlock().Hash()); got != fmt.Sprint(k.expectHead) {
+			addFail(failure{kind: "oracle", what: fmt.Sprintf("adopt: the honest longer fork (tip node %d) offered in one call from the fork point was not adopted: head is node %s", k.expectHead, got), call: len(k.calls) - 1, k: -1})
+		} else if _, err := c.bc.State(); err != nil {
+			addFail(failure{kind: "oracle", what: "adopt: head state of the adopted fork not available", call: len(k.calls) - 1, k: -1})
+		}
+	}
 	if m != nil && m.err != nil {
 		addFail(failure{kind: "correspondence", what: "model: driver error: " + m.err.Error(), call: -1, k: -1})
 	}
@@ -315,8 +335,10 @@ func matcherFor(k *kase, f failure) string {
 }
 
 // directed probe of the open finding F-C11b (run on every check)
-var ghostProbe = []string{"MODE strict", "N 1 0 1 3 -", "N 2 1 1 3 -", "N 3 0 2 3 -", "M 4 3 badtx", "N 5 3 2 3 -", "M 6 5 reparent 4",
-	"N 7 5 2 3 -", "M 8 7 reparent 6", "I 1 2", "I 4", "I 6", "I 8"}
+// node 3 is imported with its state; node 4 is its wrong-tx-root twin (same claimed root): stored by the side-chain path it
+// "has block and state" at once; node 6, a child of 4 above the head, is then imported on the direct path and the reorg
+// makes 4 canonical.
+var ghostProbe = []string{"MODE strict", "N 3 0 2 3 -", "M 4 3 badtx", "N 5 3 2 3 -", "M 6 5 reparent 4", "I 3", "I 4", "I 6"}
 
 func runProbe(c *vh.Ctx, m *modelIO) {
 	k, err := buildCase(ghostProbe)
@@ -478,6 +500,7 @@ func run(c *vh.Ctx) error {
 		res.DistN("calls-stored-without-head-change", st.sideStores)
 		res.DistN("invalid-blocks-offered", st.invalidOffered)
 		res.DistN("restarts-with-repair", st.repairs)
+		res.DistN("valid-chain-refused-parent-stored-without-state", st.refusedNoParentState)
 		res.DistN("rejoin-exact-before-further-block", st.rejoinExact)
 		res.Dist("mode-" + k.mode)
 		if len(res.Samples) < 3 {
@@ -518,6 +541,21 @@ func run(c *vh.Ctx) error {
 				continue // quick: a third of the 24 orders per seed
 			}
 			doCase(fmt.Sprintf("small-%s-%d", mode, i), lines)
+		}
+	}
+	// long forks in one call (side-chain verification executes blocks whose ancestors are not stored yet)
+	type fk struct {
+		p, x, y int
+		crash   bool
+	}
+	forks := []fk{{1, 1, 2, true}, {0, 2, 3, true}, {2, 2, 2, true}, {1, 3, 2, false}, {1, 2, 12, false}, {2, 1, 20, false}, {1, 2, 40, false}}
+	if c.Thorough() {
+		forks = append(forks, fk{1, 2, 12, true}, fk{3, 5, 9, true}, fk{0, 1, 33, false}, fk{4, 8, 40, false}, fk{2, 12, 12, true})
+	}
+	for i, f := range forks {
+		for _, mode := range []string{"strict", "solo"} {
+			doCase(fmt.Sprintf("fork-%s-%d", mode, i), forkCase(mode, f.p, f.x, f.y, f.crash))
+			res.Dist("fork-in-one-call")
 		}
 	}
 	// random structured cases
